@@ -127,12 +127,20 @@ pub fn gen_decode_history(seed: u64, name: &str, idx: u64) -> DecodeHistory {
     };
     let h = random_decoder_matrix(&mut g, rows, cols);
     let ncalls = 2 + g.below(19) as usize;
-    let calls = (0..ncalls)
-        .map(|_| {
-            let (llrs, family) = gen_llrs(&mut g, &h);
-            DecodeCall { llrs, limit: *g.pick(&[0usize, 0, 1, 1, 2, 5, 20, 100]), family }
-        })
-        .collect();
+    let mut calls: Vec<DecodeCall> = Vec::new();
+    for _ in 0..ncalls {
+        // now and then the very same vector again (a retry with another limit, or a repeated
+        // frame): a decoder that recognises "the frame I already hold state for" must still
+        // answer like a fresh one (seeded change C10-r4-2)
+        if !calls.is_empty() && g.chance(1, 5) {
+            let prev = if g.chance(2, 3) { calls.len() - 1 } else { g.below(calls.len() as u64) as usize };
+            let llrs = calls[prev].llrs.clone();
+            calls.push(DecodeCall { llrs, limit: *g.pick(&[0usize, 1, 1, 2, 5, 20, 100]), family: "repeat-of-earlier-call" });
+            continue;
+        }
+        let (llrs, family) = gen_llrs(&mut g, &h);
+        calls.push(DecodeCall { llrs, limit: *g.pick(&[0usize, 0, 1, 1, 2, 5, 20, 100]), family });
+    }
     DecodeHistory { name: name.to_string(), h, calls }
 }
 
@@ -400,6 +408,39 @@ pub fn apply_model(m: &mut BTreeSet<(usize, usize)>, op: &MatOp) {
     }
 }
 
+macro_rules! deliver {
+    ($v:expr, |$it:ident| $call:expr) => {{
+        let v: &Vec<usize> = $v;
+        match delivery_style(v) {
+            0 => {
+                let $it = v.iter();
+                $call
+            }
+            1 => {
+                let $it = v.iter().copied();
+                $call
+            }
+            2 => {
+                let $it = v.iter().filter(|_| true);
+                $call
+            }
+            3 => {
+                let $it = v.iter().flat_map(|x| std::iter::once(*x));
+                $call
+            }
+            4 => {
+                let $it = NoHint(v, 0);
+                $call
+            }
+            _ => {
+                let (a, b) = v.split_at(v.len() / 2);
+                let $it = a.iter().chain(b.iter());
+                $call
+            }
+        }
+    }};
+}
+
 pub fn apply_real(h: &mut SparseMatrix, op: &MatOp) {
     match op {
         MatOp::Insert(r, c) => h.insert(*r, *c),
@@ -407,11 +448,31 @@ pub fn apply_real(h: &mut SparseMatrix, op: &MatOp) {
         MatOp::Toggle(r, c) => h.toggle(*r, *c),
         MatOp::ClearRow(r) => h.clear_row(*r),
         MatOp::ClearCol(c) => h.clear_col(*c),
-        MatOp::SetRow(r, v) => h.set_row(*r, v.iter()),
-        MatOp::SetCol(c, v) => h.set_col(*c, v.iter()),
-        MatOp::InsertRow(r, v) => h.insert_row(*r, v.iter()),
-        MatOp::InsertCol(c, v) => h.insert_col(*c, v.iter()),
+        MatOp::SetRow(r, v) => deliver!(v, |it| h.set_row(*r, it)),
+        MatOp::SetCol(c, v) => deliver!(v, |it| h.set_col(*c, it)),
+        MatOp::InsertRow(r, v) => deliver!(v, |it| h.insert_row(*r, it)),
+        MatOp::InsertCol(c, v) => deliver!(v, |it| h.insert_col(*c, it)),
     }
+}
+
+/// An iterator that says nothing about its length (`size_hint` = (0, None)).
+struct NoHint<'a>(&'a [usize], usize);
+impl Iterator for NoHint<'_> {
+    type Item = usize;
+    fn next(&mut self) -> Option<usize> {
+        let x = self.0.get(self.1).copied();
+        self.1 += 1;
+        x
+    }
+}
+
+/// Which kind of iterator carries an index list to the bulk operations: a function of the
+/// list itself (so a replay delivers it the same way). The bulk operations take any
+/// `Iterator<Item: Borrow<usize>>`; slices report their exact length, filters and custom
+/// iterators report a lower bound of 0, chains and flat-maps something in between — a bulk
+/// path that trusts `size_hint` (seeded change C17-r4-1) shows only with the latter.
+pub fn delivery_style(v: &[usize]) -> usize {
+    (v.iter().fold(v.len() as u64 * 7 + 3, |a, &x| a.wrapping_mul(31).wrapping_add(x as u64)) % 6) as usize
 }
 
 fn check_against_model(h: &SparseMatrix, m: &BTreeSet<(usize, usize)>, nr: usize, nc: usize) -> Option<String> {
